@@ -65,6 +65,7 @@ let table : (string * (z list -> z)) list = [
   ("tlimit", judge_tlimit);
   ("hist", judge_hist);
   ("threads", judge_threads);
+  ("equimod", judge_equimod);
 ]
 
 let () =
